@@ -253,6 +253,14 @@ func genFaults(w *Writer, maxLen int, rng *rand.Rand, keep float64) {
 							if take() {
 								w.Put(RunStream(c, p, sc, pat, stop))
 							}
+							// the context ends during the call (inside the source) instead of before it
+							if anyTrue(pat) && c.Name != "Chan" && take() { // (Chan's source is read by a pump goroutine)
+								MidCall = pat
+								SrcIgnoreCtx = true
+								w.Put(RunStream(c, p, sc, nil, stop))
+								SrcIgnoreCtx = false
+								MidCall = nil
+							}
 							// the same with sources that do not look at the context they are given
 							if anyTrue(pat) && take() {
 								SrcIgnoreCtx = true
